@@ -27,7 +27,7 @@ type In2 struct {
 }
 
 type In3 struct {
-	Deep In1 `json:"deep"`
+	Deep In1  `json:"deep"`
 	W    *int `json:"w,omitempty"`
 }
 
@@ -64,41 +64,41 @@ type St5 struct {
 
 type St6 struct {
 	unexported int
-	Dash       int  `json:"-"`
-	DashComma  int  `json:"-,"`
-	Omit       *In1 `json:",omitempty"`
-	Iface      any  `json:"iface,omitempty"`
-	Str        int  `json:"str,string"`
+	Dash       int     `json:"-"`
+	DashComma  int     `json:"-,"`
+	Omit       *In1    `json:",omitempty"`
+	Iface      any     `json:"iface,omitempty"`
+	Str        int     `json:"str,string"`
 	FS         float64 `json:"fs,string,omitempty"`
 	Any        any
 }
 
 type St7 struct {
-	T  FlakyText            `json:"t"`
-	MT map[FlakyText]int    `json:"mt"`
-	PF *Flaky               `json:"pf"`
-	SF []*Flaky             `json:"sf,omitempty"`
+	T  FlakyText                 `json:"t"`
+	MT map[FlakyText]int         `json:"mt"`
+	PF *Flaky                    `json:"pf"`
+	SF []*Flaky                  `json:"sf,omitempty"`
 	MM map[string]map[string]int `json:"mm"`
 }
 
 // Node is recursive: its encoder is built through the placeholder/WaitGroup path of typeEncoder.
 type Node struct {
-	V    int     `json:"v"`
-	Next *Node   `json:"next,omitempty"`
-	Kids []Node  `json:"kids,omitempty"`
+	V    int              `json:"v"`
+	Next *Node            `json:"next,omitempty"`
+	Kids []Node           `json:"kids,omitempty"`
 	M    map[string]*Node `json:"m,omitempty"`
 }
 
 type St8 struct {
 	In3
-	X    string `json:"x"` // shallower than In3.Deep.X? no: In3 has no X; plain field
+	X    string `json:"x"`    // shallower than In3.Deep.X? no: In3 has no X; plain field
 	Deep int    `json:"deep"` // shadows the promoted In3.Deep
 }
 
 type St9 struct {
-	A int `json:"a"`
-	B int `json:"A"` // differs from "a" only by case: exact match wins, then case-insensitive
-	C int `json:"é"`
+	A int    `json:"a"`
+	B int    `json:"A"` // differs from "a" only by case: exact match wins, then case-insensitive
+	C int    `json:"é"`
 	D string `json:"a/b"`
 	E []any  `json:"e"`
 }
@@ -391,4 +391,148 @@ func describeType(t reflect.Type) string {
 		s = s[:160] + "…"
 	}
 	return fmt.Sprintf("%s", s)
+}
+
+// ---------------------------------------------------------------------------
+// Go values that no JSON text decodes to: typed nil pointers and pointers inside
+// interfaces, empty-but-non-nil containers, struct values in interfaces, NaN.
+// Applied (same seed, same traversal) to the value given to either codec.
+
+var specialValues = []func() any{
+	func() any { return (*int)(nil) },
+	func() any { return (*In1)(nil) },
+	func() any { return (*Flaky)(nil) },
+	func() any { v := 5; return &v },
+	func() any { return &In1{X: 1, Y: "y"} },
+	func() any { return In1{X: 2} },
+	func() any { return map[string]int(nil) },
+	func() any { return []string(nil) },
+	func() any { return map[string]any{} },
+	func() any { return []any{} },
+	func() any { return int8(-3) },
+	func() any { return uint64(18446744073709551615) },
+	func() any { return float32(1.5) },
+	func() any { return "s<>& " },
+	func() any { return []byte("hi") },
+	func() any { return [2]bool{true, false} },
+	func() any { return &Flaky{Got: `{"z":[1, 2]}`} },
+	func() any { return FlakyText{S: "t&"} },
+	func() any { v := any((*string)(nil)); return &v },
+	func() any { return St6{Iface: (*int)(nil), Any: (*In1)(nil)} },
+	func() any { return &St6{Iface: []int{}, Omit: &In1{}} },
+	func() any { return map[int]any{2: nil, 10: (*int)(nil), -1: "x"} },
+	func() any { return nanValue },
+}
+
+var nanValue = func() float64 { var z float64; return z / z }()
+
+// mutateValue rewrites parts of an addressable value in place.
+func mutateValue(v reflect.Value, r *gen.R, depth int) {
+	if depth > 6 || !v.IsValid() {
+		return
+	}
+	switch v.Kind() {
+	case reflect.Interface:
+		if v.CanSet() && r.P(150) {
+			v.Set(reflect.ValueOf(specialValues[r.Intn(len(specialValues))]()))
+			return
+		}
+		if v.IsNil() {
+			return
+		}
+		e := v.Elem()
+		switch e.Kind() {
+		case reflect.Map:
+			if e.Type().Key().Kind() != reflect.String {
+				return
+			}
+			keys := e.MapKeys()
+			strs := make([]string, len(keys))
+			for i, k := range keys {
+				strs[i] = k.String()
+			}
+			sortStrings(strs)
+			for _, k := range strs {
+				kv := reflect.ValueOf(k).Convert(e.Type().Key())
+				if e.Type().Elem().Kind() == reflect.Interface && r.P(120) {
+					e.SetMapIndex(kv, reflect.ValueOf(specialValues[r.Intn(len(specialValues))]()))
+					continue
+				}
+				// map elements are not addressable: mutate a copy and store it back
+				cp := reflect.New(e.Type().Elem()).Elem()
+				cp.Set(e.MapIndex(kv))
+				mutateValue(cp, r, depth+1)
+				e.SetMapIndex(kv, cp)
+			}
+		case reflect.Slice:
+			for i := 0; i < e.Len() && i < 8; i++ {
+				mutateValue(e.Index(i), r, depth+1)
+			}
+		}
+	case reflect.Struct:
+		for i := 0; i < v.NumField(); i++ {
+			if v.Type().Field(i).IsExported() {
+				mutateValue(v.Field(i), r, depth+1)
+			}
+		}
+	case reflect.Pointer:
+		if v.IsNil() {
+			if v.CanSet() && r.P(120) && v.Type() != flakyPtrType {
+				v.Set(reflect.New(v.Type().Elem())) // non-nil pointer to a zero value: not "empty" for omitempty
+			}
+			return
+		}
+		mutateValue(v.Elem(), r, depth+1)
+	case reflect.Slice:
+		if v.IsNil() {
+			if v.CanSet() && r.P(100) {
+				v.Set(reflect.MakeSlice(v.Type(), 0, 0))
+			}
+			return
+		}
+		for i := 0; i < v.Len() && i < 8; i++ {
+			mutateValue(v.Index(i), r, depth+1)
+		}
+	case reflect.Array:
+		for i := 0; i < v.Len() && i < 8; i++ {
+			mutateValue(v.Index(i), r, depth+1)
+		}
+	case reflect.Map:
+		if v.IsNil() {
+			if v.CanSet() && r.P(100) {
+				v.Set(reflect.MakeMap(v.Type()))
+			}
+			return
+		}
+		if v.Type().Key().Kind() == reflect.String && v.Type().Elem().Kind() == reflect.Interface {
+			// same treatment as a map inside an interface
+			iv := reflect.New(reflect.TypeOf((*any)(nil)).Elem()).Elem()
+			iv.Set(v)
+			mutateValue(iv, r, depth+1)
+		}
+	case reflect.Float64, reflect.Float32:
+		if v.CanSet() && r.P(15) {
+			v.SetFloat(nanValue)
+		}
+	}
+}
+
+func sortStrings(s []string) {
+	for i := 1; i < len(s); i++ {
+		for j := i; j > 0 && s[j] < s[j-1]; j-- {
+			s[j], s[j-1] = s[j-1], s[j]
+		}
+	}
+}
+
+// mutateSeed says whether (and how) the value built from a text is mutated: half of the type seeds.
+func mutateSeed(text []byte, typeSeed uint64) (uint64, bool) {
+	if typeSeed&8 == 0 {
+		return 0, false
+	}
+	h := uint64(1469598103934665603)
+	for _, c := range text {
+		h = (h ^ uint64(c)) * 1099511628211
+	}
+	return h ^ typeSeed, true
 }
